@@ -617,7 +617,12 @@ def units(w):
                 ("list.ckl::append_all", "do def t = [5]; List->append_all(t, a); t end", 1, lambda xs, ys: [z3.IntVal(5)] + xs),
                 ("core.ckl::pairs", "List->flatten(pairs(a))", 1, lambda xs, ys: [t for i in range(len(xs) - 1) for t in (xs[i], xs[i + 1])]),
                 ("core.ckl::enumerate", "List->flatten(enumerate(a))", 1, lambda xs, ys: [t for i, x in enumerate(xs) for t in (z3.IntVal(i), x)]),
-                ("core.ckl::zip", "List->flatten(zip(a, b))", 2, lambda xs, ys: [t for x, y in zip(xs, ys) for t in (x, y)])]
+                ("core.ckl::zip", "List->flatten(zip(a, b))", 2, lambda xs, ys: [t for x, y in zip(xs, ys) for t in (x, y)]),
+                # chunks: the elements in order, then the chunk sizes (all of the stated size but possibly the last, none empty)
+                ("core.ckl::chunks(2)", "List->flatten(chunks(a, 2)) + [length(c) for c in chunks(a, 2)]", 1,
+                 lambda xs, ys: xs + [z3.IntVal(min(2, len(xs) - i)) for i in range(0, len(xs), 2)]),
+                ("core.ckl::chunks(1)", "List->flatten(chunks(a, 1)) + [length(c) for c in chunks(a, 1)]", 1,
+                 lambda xs, ys: xs + [z3.IntVal(1) for _ in xs])]
     for fname, text, ar, spec in LISTFUNS:
         for n in (0, 1, 2, 3):
             U.append(list_unit(fname, text, n, spec, ar))
